@@ -43,6 +43,9 @@ tie (T-acc + T-diff), every run:
       and type parameters; a module body is compared TOGETHER with the typedefs it (transitively) refers to, and typedef names
       take part in the name -> body map of emitted file sets.  After all sub-trees of a design were translated one after the
       other as separate tops into one directory, every recorded translated_filename must still hold the text written for it.
+  (i) LONG parameter renderings (lists / tuples of 100-300 ints, nested lists, 1200-character strings; always the hashing branch)
+      whose instances differ at the beginning / the middle / only in the last element, and string pairs that differ only beyond
+      64 / 128 / 256 / 512 / 1024 characters: judged by sharing_ok and by the name model with the harness's own blake2b digests.
   (e) IEEE 1800-2017 keywords name EVERY declaration shape of a small design (scalar / 1-D / 2-D lists of ports and wires,
       struct-typed signals and lists of them, interfaces, lists of interfaces and interface members, sub-components and lists
       of them, ports and port lists of sub-components, struct fields, struct names, block names, temporaries, free variables,
@@ -450,6 +453,23 @@ class Off( Component ):
       def up_pos():
         s.out @= s.in_ + off
 def some_function(): pass
+# LONG parameter renderings (always through the hashing branch): the behaviour depends on EVERY character of the rendering
+def var_at( v, i, new ):
+  # a copy of the list / tuple / string v that differs from v only at position i
+  i %= len( v )
+  return v[:i] + ( new if isinstance( v, str ) else type( v )( [ new ] ) ) + v[i+1:]
+LONG_L = [ ( 7 * i ) % 200 for i in range( 128 ) ]
+LONG_T = tuple( ( 11 * i ) % 90 for i in range( 300 ) )
+LONG_N = [ [ i, ( 3 * i ) % 17 ] for i in range( 100 ) ]
+LONG_S = 'abcdefghij' * 120
+class Lut( Component ):
+  def construct( s, table, tag='t' ):
+    s._c13_args = eff_record( locals() )
+    s.in_ = InPort( 8 ); s.out = OutPort( 8 )
+    c = sum( ( i + 1 ) * ord( ch ) for i, ch in enumerate( str( table ) ) ) % 251
+    @update
+    def up_lut():
+      s.out @= s.in_ + c
 # external Verilog wrapped by PyMTL (the .v files are written next to this module by the harness)
 class VAdd( Component, VerilogPlaceholder ):
   def construct( s, nbits=8, amt=0 ):
@@ -659,6 +679,12 @@ class HGen:
       return f'Wide( {kw} )', 'wide'
     if x < 0.74:
       return f'Off( 8, {r.choice([0, 1, 2, 255])} )', 'off'
+    if x < 0.755:
+      s.features.add('long-param-rendering')
+      base = r.choice(['LONG_L', 'LONG_T', 'LONG_N', 'LONG_S'])
+      new = {'LONG_L': '999', 'LONG_T': '998', 'LONG_N': '[ 5, 5 ]', 'LONG_S': "'Z'"}[base]
+      return r.choice([f'Lut( {base} )', f'Lut( var_at( {base}, 0, {new} ) )', f'Lut( var_at( {base}, len( {base} ) // 2, {new} ) )', f'Lut( var_at( {base}, -1, {new} ) )',
+                       f'Lut( var_at( {base}, -2, {new} ) )', f'Lut( {base}, tag=' + repr(r.choice(['t', 'u'])) + ' )']), 'lut'
     if x < 0.765:
       return r.choice(['VAdd()', 'VAdd( 8, 3 )', 'VAdd( amt=2 )', 'VAdd( 8 )', 'VPass()', 'VPass()']), 'vph'
     if x < 0.78:
@@ -711,7 +737,7 @@ class HGen:
       for ref in ([f's.{cn}[{i}]' for i in range(k)] if form != 4 else [f's.{cn}[{j}][{i}]' for j in range(k) for i in range(2)]):
         L.append(f'{ref}.in_ //= s.in_'); outs.append(f'{ref}.out')
     for cn, kind, k, e in [x for x in kids if not x[0].startswith('va')]:
-      eight = kind in ('leaf', 'wide', 'off', 'sel', 'box', 'inc2', 'vph', 'uniq') and '( 4 )' not in e
+      eight = kind in ('leaf', 'wide', 'off', 'sel', 'box', 'inc2', 'vph', 'uniq', 'lut') and '( 4 )' not in e
       refs = [f's.{cn}'] if not k else [f's.{cn}[{i}]' for i in range(k)]
       for ref in refs:
         if eight:
@@ -851,6 +877,14 @@ def directed(auxmod):
       [('a', 'Bits8'), ('b', 'Bits4'), ('c', 'mk_bits(13)'), ('d', 'Pt'), ('e', 'Outer'), ('f', 'Pt'), ('g', 'Pt'), ('h', 'Pt')]))
   add('D_params_special', 'special-char-param', drive(["s.a = Par( Bits8, 1, 'hello world' ); s.b = Par( Bits8, 1, 'hello  world' ); s.c = Par( Bits8, 2, 'a.b' ); s.d = Par( Bits8, 1, 'x[0]' ); s.e = Par( Bits8, 1, '<q>' ); s.f = Par( Bits8, 1, [1, 2] ); s.g = Par( Bits8, 1, (1, 2) ); s.h = Par( Bits8, 3, 1.5 )"], [(c, 'Bits8') for c in 'abcdefgh']))
   add('D_params_long', 'long-param-list', ['s.a = Wide(); s.b = Wide( a0=1 ); s.c = Wide( a9=1 ); s.d = Wide( 0, 1, 2, 3, 4, 5, 6, 7, 8, 9 ); s.e = Wide( a5=55 )'] + conn('a', 'b', 'c', 'd', 'e'))
+  add('D_long_param_renderings', 'long-param-rendering',
+      ['s.l = [ Lut( LONG_L ), Lut( var_at( LONG_L, 0, 999 ) ), Lut( var_at( LONG_L, 64, 999 ) ), Lut( var_at( LONG_L, -1, 999 ) ), Lut( var_at( LONG_L, -1, 998 ) ) ]',
+       's.t = [ Lut( LONG_T ), Lut( var_at( LONG_T, 1, 998 ) ), Lut( var_at( LONG_T, 150, 998 ) ), Lut( var_at( LONG_T, -1, 998 ) ) ]',
+       's.n = [ Lut( LONG_N ), Lut( var_at( LONG_N, 0, [ 5, 5 ] ) ), Lut( var_at( LONG_N, 50, [ 5, 5 ] ) ), Lut( var_at( LONG_N, -1, [ 5, 5 ] ) ), Lut( var_at( LONG_N, -1, [ 99, 6 ] ) ) ]',
+       # strings that differ ONLY beyond 64 / 128 / 256 / 512 / 1024 characters of the rendering, and only in the last character
+       's.s = [ Lut( LONG_S ) ] + [ Lut( var_at( LONG_S, p, "Z" ) ) for p in ( 3, 70, 140, 270, 530, 1050, -1 ) ]',
+       's.q = [ Lut( LONG_S[:n] ) for n in ( 60, 130, 260, 520, 1030 ) ] + [ Lut( LONG_S[:n] + "Z" ) for n in ( 60, 130, 260, 520, 1030 ) ]',
+       's.same = [ Lut( list( LONG_L ) ), Lut( LONG_L ) ]'])
   add('D_params_hash_boundary', 'long-param-list', drive(["s.a = Par( Bits8, 1, '" + 'q' * 27 + "' ); s.b = Par( Bits8, 1, '" + 'q' * 28 + "' ); s.c = Par( Bits8, 1, '" + 'q' * 29 + "' )"], [(c, 'Bits8') for c in 'abc']))
   add('D_neg_param', 'neg-param', ['s.a = Off( 8 ); s.b = Off( 8, -2 ); s.c = Off( 8, 3 )'] + conn('a', 'b', 'c'))
   add('D_odd_param', 'odd-param', ["s.a = Sel( 'a/b' ); s.b = Sel( 'a-b' ); s.c = Sel( 'it' + chr(39) + 's' )"] + conn('a', 'b', 'c'))
